@@ -23,6 +23,8 @@
 #include "context.h"
 #include "parser.h"
 
+#include <climits>
+
 namespace bloc
 {
 
@@ -64,7 +66,13 @@ ItemExpression * ItemExpression::parse(Parser& p, Context& ctx, Expression * exp
   TokenPtr t = p.pop();
   if (t->code != TOKEN_INTEGER)
     throw ParseError(EXC_PARSE_INV_EXPRESSION, t);
-  unsigned item_no = (unsigned)std::stoul(t->text, nullptr, 10);
+  /* the rank must fit in the index type */
+  unsigned long item_ul = 0;
+  try { item_ul = std::stoul(t->text, nullptr, 10); }
+  catch (std::out_of_range& e) { item_ul = ULONG_MAX; }
+  if (item_ul > UINT_MAX)
+    throw ParseError(EXC_PARSE_OUT_OF_INDICE, t->text.c_str(), t);
+  unsigned item_no = (unsigned)item_ul;
   switch (exp_type.major())
   {
   case Type::NO_TYPE:
